@@ -6,6 +6,7 @@ import EaselModel.Msafile.PhylipLemmas
 import EaselModel.Msafile.SelexLemmas
 import EaselModel.Msafile.StockholmLemmas
 import EaselModel.Msafile.StoGrowth
+import EaselModel.Msafile.StoNum
 import EaselModel.Msafile.AbcTables
 import EaselModel.Msafile.GuessLemmas
 /-! # C01 — alignment input is total: property theorems (statements + glue; lemmas live in `Msafile/*Lemmas.lean`)
@@ -612,6 +613,49 @@ example : (match (stockholmRead (stockholmCfg none) (splitLines exSto17)).1 with
     | _ => false) = true := by decide +kernel
 
 
+/-! ### the numeric payload: `#=GS <seq> WT <w>` weights and `#=GF GA|NC|TC` cut-offs (`Msafile/StoNum.lean`)
+
+`stockholmReadV` = `stockholmRead` + the VALUES `esl_memtod` / `esl_memtof` store (`strtodBits`: glibc `strtod` on the
+longest valid prefix of the token — decimal and hexadecimal syntax correctly rounded by exact integer arithmetic,
+infinities exact, NaN canonical; `f64ToF32`: the second rounding of `(float) strtod()`).  It is the reader the driver
+runs and the harness is compared with, bit for bit.  It is `stockholmRead` up to the payload (`stockholmV_erase`), so
+totality, fault-freedom, the message and well-formedness transfer. -/
+
+theorem stockholmV_erase (cfg : Cfg) (lines : List Bytes) :
+    ∃ ns, stockholmReadV cfg lines = (patchRes ns (stockholmRead cfg lines).1, (stockholmRead cfg lines).2) :=
+  stockholmReadV_erase cfg lines
+
+theorem stockholmV_total (cfg : Cfg) (hc : cfg ∈ stoConfigs) (src : Bytes) : Good (stockholmReadV cfg (splitLines src)).1 :=
+  stockholmReadV_good cfg _ (stockholm_total cfg hc src)
+
+theorem stockholmV_total_rest (cfg : Cfg) (hc : cfg ∈ stoConfigs) (lines : List Bytes) :
+    Good (stockholmReadV cfg lines).1 ∧ Good (stockholmReadV cfg (stockholmReadV cfg lines).2).1 :=
+  ⟨stockholmReadV_good cfg _ (stockholm_total_rest cfg hc lines).1,
+   stockholmReadV_good cfg _ (by rw [stockholmReadV_rest]; exact (stockholm_total_rest cfg hc lines).2)⟩
+
+/-- the alignment the value-carrying reader returns is `stockholmRead`'s with `wgt` / `cutoff` patched, and well formed -/
+theorem stockholmV_ok_wellformed (cfg : Cfg) (hc : cfg ∈ stoConfigs) (src : Bytes) (m : Msa)
+    (h : (stockholmReadV cfg (splitLines src)).1 = .ok m) :
+    m.wellFormed = true ∧ ∃ m0 ns, (stockholmRead cfg (splitLines src)).1 = .ok m0 ∧ m = patchMsa ns m0 := by
+  have hg := stockholmV_total cfg hc src
+  rw [h] at hg
+  exact ⟨hg, stockholmReadV_ok cfg _ m h⟩
+
+/-- non-vacuity: "#=GS a WT 2" of `exSto` is read as 2.0; a file with `WT 0.42`, `GA 25.0 1e-3`, `TC 0x1p4` -/
+example : (match (stockholmReadV (stockholmCfg none) (splitLines exSto)).1 with
+    | .ok m => m.wgt == [Wgt.val 0x4000000000000000] && m.hasw
+    | _ => false) = true := by decide +kernel
+
+/-- "# STOCKHOLM 1.0\n#=GF GA 25.0 1e-3\n#=GF TC 0x1p4\n#=GS a WT 0.42\na AC\n//\n" -/
+def exStoNum : Bytes :=
+  [35,32,83,84,79,67,75,72,79,76,77,32,49,46,48,10, 35,61,71,70,32,71,65,32,50,53,46,48,32,49,101,45,51,10,
+   35,61,71,70,32,84,67,32,48,120,49,112,52,10, 35,61,71,83,32,97,32,87,84,32,48,46,52,50,10, 97,32,65,67,10, 47,47,10]
+
+example : (match (stockholmReadV (stockholmCfg none) (splitLines exStoNum)).1 with
+    | .ok m => m.wgt == [Wgt.val 0x3fdae147ae147ae1] &&
+        m.cutoff == [some 0x41800000, none, some 0x41c80000, some 0x3a83126f, none, none]
+    | _ => false) = true := by decide +kernel
+
 /-! # ===================== AUTODETECT section: the open path `msafile_OpenBuffer` =====================
 
 Model `Msafile/Guess.lean` (`openModel` = what `msafile_OpenBuffer` decides: declared or autodetected format, text mode,
@@ -751,6 +795,11 @@ theorem opened_read_good (o : Opened) (lines : List Bytes) : Good (o.read lines)
   · exact clustalRead_good true _ (cfgOf_valid .clustal abc) lines
   · exact phylipReadW_good nw false _ (cfgOf_valid .phylip abc) lines
   · exact phylipReadW_good nw true _ (cfgOf_valid .phylip abc) lines
+
+/-- … and so is every read with the numeric payload of Stockholm weights / cut-offs carried along (`Opened.readV`, the
+    reader the driver runs) -/
+theorem opened_readV_good (o : Opened) (lines : List Bytes) : Good (o.readV lines).1 :=
+  Opened.readV_good o lines (opened_read_good o lines)
 
 /-- (1) **the guessers never fault**: format autodetection (its own rules, `msafile_check_selex`, the three PHYLIP deep
     checks) and alphabet guessing (all formats, every name width), for every file name and every list of lines -/
